@@ -218,6 +218,18 @@ CHECKS = {
         'quick': {'shards': 16, 'timeout': 900},
         'thorough': {'shards': 16, 'timeout': 5400},
     },
+    'C17': {
+        'pkg': 'internal/server', 'test': 'TestVerif_C17', 'level': 'exploration',
+        'technique': 'runtime monitoring of the real user panel: stress storms under the race detector with a goroutine-dump deadlock classifier, hook-forced interleavings (overlapping upload rounds, admission vs last-session close, termination vs re-admission), ownership invariant read under the panel\'s own locks at quiescent points',
+        'level_text': 'Storms of 16..64 goroutines issue GetUser/GetSession/CloseSession/TerminateActiveUser/updateUsageQueue/commitUpdate over 1..4 database users; completion is required, and if calls do not finish the verdict comes from goroutine dumps (a deadlock needs the same set of bookkeeping calls, all waiting for mutexes, in four consecutive dumps). '
+                      'Three interleavings are forced deterministically with hooks: a usage collection overlapped by the commit of another round; a connection that resolved its user while the user\'s last session closes; a termination overlapped by a re-admission. '
+                      'At every quiescent point every live session handed out must be the one registered under its id in the single active record of its UID.',
+        'level_note': 'Assumes ' + A_RACE + ' and ' + A_HARNESS + '. Interleavings other than the three forced ones are only sampled by the storms. The deadlock classifier uses wall-clock polling only to decide when to look; its verdict is structural (stable all-mutex wait set), anything else is reported inconclusive.',
+        'rule': 'case = one storm (workers, operations, users) or one forced interleaving; distinct = case index; non-trivial = at least 960 concurrent bookkeeping calls per storm, or a hook that was actually reached',
+        'assumptions': [A_RACE, A_HARNESS],
+        'quick': {'shards': 12, 'timeout': 900},
+        'thorough': {'shards': 16, 'timeout': 5400},
+    },
 }
 
 NOT_APPLICABLE = {p: 'check not built yet in this round (the design in DESIGN.md section 3 applies; runtime monitoring can decide it)'
